@@ -1,4 +1,5 @@
 import ScVerif.C10.LateInv
+import ScVerif.C10.LateLossy
 /-!
 # C10 — property theorems, part 5: "a single-item subscription also ends when the item is removed", from the moment
 # the subscribing call has returned
@@ -93,5 +94,66 @@ example :
 example :
     let p : PConfig := { hasEx := false, exMerge := false, hasPid := true, target := 7, fixed := true, keep := fun _ => true }
     (lstep (linit true false p) .ret).isNone = true := by decide
+
+/-- WITHOUT backpressure (`mergeCollectionExcess` in front of the forwarder, `mergeChanges` incl. ADD+REMOVE
+annihilation and REMOVE+ADD = REPLACE): a single-item subscription made while the item exists, under every schedule
+of updates, deletes and re-adds of the item, changes of any other items of the collection (`other`), pipeline
+goroutines, subscriber and cancel — whenever the item is gone,
+the subscription has ended, or the subscriber has cancelled, or the REMOVE is still on its way: queued in the merge
+stage, or in the forwarder's hand.  It is never merged away (an ADD can only annihilate a REMOVE whose predecessor
+REMOVE already went downstream), dropped or overtaken.  (A delete followed by a re-add before the merge stage was
+drained is one REPLACE: the item exists again and the subscription goes on.) -/
+theorem C10_lossy_single_item_remove_never_merged_away (sync uo fixed : Bool) (target : Nat) (sched : List LMove) :
+    let c := lrun (lsubscribed sync uo target fixed) sched
+    c.present = false →
+      c.p.pidDone = true ∨ c.p.cancelled = true ∨
+      (∃ m ∈ c.p.exQ, m.id = c.p.target ∧ m.kind = .remove) ∨ c.p.RemoveInHand := by
+  intro c hgone
+  have hI : LLossy c := llossy_run _ sched (llossy_init sync uo target fixed)
+  cases he : ent c.p.target c.p.exQ with
+  | none =>
+    rcases hI.w (Or.inl ⟨he, hgone⟩) with h | h | h
+    · exact Or.inl h
+    · exact Or.inr (Or.inl h)
+    · exact Or.inr (Or.inr (Or.inr h))
+  | some m =>
+    have hk : m.kind = .remove := (hI.wf m he).mpr hgone
+    have hmem : m ∈ c.p.exQ := List.mem_of_find?_eq_some he
+    have hid : m.id = c.p.target := by simpa using List.find?_some he
+    exact Or.inr (Or.inr (Or.inl ⟨m, hmem, hid, hk⟩))
+
+/-- … and a queued change does not sit there for ever: while the merge stage holds something and nothing has
+ended, a step of the subscription's goroutines or of the subscriber is enabled (the merge stage hands over, the
+PullID stage takes the forwarder's change, or the subscriber has a change to receive). -/
+theorem C10_lossy_queued_change_progress (p : PConfig) (m : Msg) (r : List Msg) (hex : p.hasEx = true)
+    (hpid : p.hasPid = true) (hq : p.exQ = m :: r) (hxd : p.exDone = false) (hfd : p.fwDone = false)
+    (hpd : p.pidDone = false) :
+    (pstep p .xferEF).isSome ∨ (pstep p .xferFP).isSome ∨ (pstep p .consume).isSome := by
+  cases hf : p.fwQ with
+  | nil => left; simp [pstep, hq, hex, hxd, hfd, hf]
+  | cons x xs =>
+    cases hpq : p.pidQ with
+    | nil => right; left; simp [pstep, hf, hpid, hfd, hpd, hpq]
+    | cons y ys => right; right; simp [pstep, hpid, hpq, hpd]
+
+/-- non-vacuity: an update and the delete are merged into one REMOVE behind the undelivered seed; the item re-added
+before the merge stage was drained makes it a REPLACE (the subscription goes on, the item exists) -/
+example :
+    let c := lrun (lsubscribed true false 7 true) [.upd 1, .other ⟨3, .add, 5⟩, .del]
+    c.present = false ∧ c.p.exQ = [⟨3, .add, 5⟩, ⟨7, .remove, 0⟩] ∧ c.p.fwQ = [⟨7, .add, 0⟩] ∧
+      (lrun c [.upd 2]).p.exQ = [⟨3, .add, 5⟩, ⟨7, .replace, 2⟩] ∧ (lrun c [.upd 2]).present = true := by decide
+
+/-- The adapter's own channel follows: once the subscription underneath has ended (its channel is closed and drained)
+— through the item's removal just as through a cancel — the adapter goroutine is not stuck: it returns (closing the
+channel it gave to the subscriber), or it still offers its last change, which the subscriber can receive; and with
+the context cancelled it can always leave. -/
+theorem C10_adapter_ends_when_subscription_ends (a : AConfig) (hd : a.aDone = false) (hc : a.p.outClosed = true)
+    (hq : if a.p.hasPid then a.p.pidQ = [] else a.p.fwQ = []) :
+    (∃ a', astep a .aExitIn = some a' ∧ a'.aDone = true) ∨ (astep a .aSend).isSome := by
+  cases hh : a.hold with
+  | false =>
+    left
+    exact ⟨{ a with aDone := true }, by simp only [astep]; rw [if_pos ⟨hd, hh, hc, hq⟩], rfl⟩
+  | true => right; simp [astep, hd, hh]
 
 end ScVerif.C10
